@@ -581,6 +581,11 @@ func nonceHalf(ctx *vrun.Ctx, form, label string) []byte {
 		ctx.Rand("junk|" + label).Read(b[1:])
 		b[32] |= 1
 		return b
+	case "zero_junk_first", "zero_junk_mid", "zero_junk_last":
+		b := make([]byte, 33)
+		pos := map[string]int{"zero_junk_first": 1, "zero_junk_mid": 16, "zero_junk_last": 32}[form]
+		b[pos] = byte(1 + ctx.Rand("junk|"+label).Intn(255))
+		return b
 	case "offc":
 		x, _ := xValue(ctx, "offc", label)
 		return append([]byte{2}, b32(x)...)
